@@ -308,31 +308,37 @@ func runHistory(db *DB, progs [][]pstep, rng *rand.Rand, background bool) []Op {
 	}
 	var bg sync.WaitGroup
 	if background {
-		bg.Add(2)
-		go func() {
-			defer bg.Done()
-			for {
-				select {
-				case <-stop:
-					return
-				default:
-					db.D.FlushIndex(&schema.FlushIndexRequest{CleanupPercentage: 10, Synced: false})
-					time.Sleep(300 * time.Microsecond)
+		which := os.Getenv("C06_BG") // "", "flush", "compact" (investigation knob; default both)
+		if which != "compact" {
+			bg.Add(1)
+			go func() {
+				defer bg.Done()
+				for {
+					select {
+					case <-stop:
+						return
+					default:
+						db.D.FlushIndex(&schema.FlushIndexRequest{CleanupPercentage: 10, Synced: false})
+						time.Sleep(300 * time.Microsecond)
+					}
 				}
-			}
-		}()
-		go func() {
-			defer bg.Done()
-			for {
-				select {
-				case <-stop:
-					return
-				default:
-					db.D.CompactIndex()
-					time.Sleep(2 * time.Millisecond)
+			}()
+		}
+		if which != "flush" {
+			bg.Add(1)
+			go func() {
+				defer bg.Done()
+				for {
+					select {
+					case <-stop:
+						return
+					default:
+						db.D.CompactIndex()
+						time.Sleep(2 * time.Millisecond)
+					}
 				}
-			}
-		}()
+			}()
+		}
 	}
 	close(start)
 	wg.Wait()
